@@ -142,12 +142,14 @@ parseChunks:
 				return nil, fmt.Errorf("invalid ICC profile chunk length")
 			}
 
-			chunkData := make([]byte, ch.Length-offset)
-			bytesRead, err := r.Read(chunkData)
+			// Read only as much as the stream actually provides so that the
+			// declared chunk length cannot force a huge allocation.
+			chunkDataLength := ch.Length - offset
+			chunkData, err := io.ReadAll(io.LimitReader(r, int64(chunkDataLength)))
 			if err != nil {
 				return nil, err
 			}
-			if bytesRead != len(chunkData) {
+			if uint32(len(chunkData)) != chunkDataLength {
 				return nil, fmt.Errorf("unexpected EOF reading ICC profile chunk")
 			}
 
